@@ -2,7 +2,7 @@
     [bpe_tokenize c s] = [BPETokenizer::new(c)] + [tokenize(s, true)] ([None] = constructor error),
     [bpe_decode tbl ids] = [de_tokenize(ids, true)] as bytes, [eff_table c] = the merge table after
     the [max_vocab_size] cut. No well-formedness of the table is needed. *)
-From TU Require Import Base BPE_Model C02_Model C02_Inv C02_Loop C02_Proofs.
+From TU Require Import Base BPE_Model C02_Model C02_Inv C02_Loop C02_Proofs C02_Check.
 Open Scope N_scope.
 
 (** Lossless: decoding the ids gives the UTF-8 bytes of the text without its trailing whitespace. *)
@@ -72,6 +72,14 @@ Print Assumptions bpe_tokenize_ctor_error.
 Theorem check_run : forall v, Forall valid_cp (v_str (v_nth 5 v)) -> check_C02 v (run_C02 v) = true.
 Proof. exact check_run_l. Qed.
 Print Assumptions check_run.
+
+(** ... and a [true] of the executable statement on an implementation output (valid configuration)
+    means: every id is a vocabulary id and the decoded bytes are the UTF-8 of the stripped text. *)
+Theorem check_sound : forall v out, config_ok (v_config v) = true -> check_C02 v out = true ->
+  exists ids vs, out = L [list_v n_v ids; L [list_v n_v (utf8s (strip_trailing_ws (v_str (v_nth 5 v))))]; vs] /\
+                 Forall (fun id => id < vocab_size (v_config v)) ids.
+Proof. exact check_C02_sound_l. Qed.
+Print Assumptions check_sound.
 
 (** Non-vacuity: a concrete configuration (table { a, ab, ä}, max_vocab_size 260 cutting the third
     entry, two special tokens, prefix <bos>) and the text " ab ä  " meet the premises. *)
